@@ -145,9 +145,15 @@ def run(ctx, spec):
 def stages(tier, seed):
     """thorough: shared-&G2Prepared threads and histories under ThreadSanitizer, threaded cold start of the lazily initialised
     constants under ThreadSanitizer (repeated runs) and under Miri (several schedules)"""
-    if tier != 'thorough':
-        return []
     from .. import stages as st
+
+    def cold(exes):
+        # 8 threads released together, each making a different FIRST call into the crate (lazily initialised constants), in a fresh
+        # process each time; plain release executor: values compared with the single-threaded reference
+        return st.cold_start('release', 'cold-start', runs=12 if tier == 'quick' else 60, threads=8, exes=exes)
+    cold.__name__ = 'cold-start'
+    if tier != 'thorough':
+        return [cold]
 
     def tsan_threads(exes):
         picks = [('c03', ('threads', i)) for i in range(12)] + [('c03', ('history', i)) for i in range(6)]
@@ -161,4 +167,4 @@ def stages(tier, seed):
     tsan_threads.__name__ = 'tsan-shared-prepared'
     tsan_cold.__name__ = 'tsan-cold-start'
     miri_cold.__name__ = 'miri-cold-start'
-    return [tsan_threads, tsan_cold, miri_cold]
+    return [cold, tsan_threads, tsan_cold, miri_cold]
